@@ -42,8 +42,21 @@ def samples(d):
         'CategorySubsetState': (lambda: S.CategorySubsetState(cc, [0]), {'categories': np.array([1, 2]), 'att': cc2}),
         'ElementSubsetState': (lambda: S.ElementSubsetState([0, 1]), {'indices': [3, 4, 5]}),
         'InequalitySubsetState': (lambda: cx > 3, {'right': 1.5, 'left': cy, 'operator': op.lt}),
+        # values whose comparison with the old value is not an honest boolean: an attribute identifier compared with a number builds a selection
+        # object (truthy); the very list the state already holds, edited in place and assigned again, equals itself
+        'InequalitySubsetState#attribute-for-number': (lambda: cx > 3, {'right': cy}),
+        'InequalitySubsetState#number-for-attribute': (lambda: S.InequalitySubsetState(cx, cy, op.gt), {'right': 2.5, 'left': 4.5}),
+        'MultiRangeSubsetState#same-list-edited': (lambda: S.MultiRangeSubsetState([(1, 2)], cx), {'pairs': InPlace(lambda st: (st.pairs.append((4, 6)), st.pairs)[1])}),
+        'ElementSubsetState#same-list-edited': (lambda: S.ElementSubsetState([0, 1]), {'indices': InPlace(lambda st: (st.indices.append(4), st.indices)[1])}),
     }
     return out
+
+
+class InPlace:
+    """alternative value = the object the state already holds, edited in place (computed from the state at assignment time)"""
+
+    def __init__(self, f):
+        self.f = f
 
 
 def roi_mutators():
@@ -123,7 +136,7 @@ def setter_histories(R, tier):
     covered = set()
     for cname, (factory, alts) in sm.items():
         for attr, alt in alts.items():
-            covered.add((cname, attr))
+            covered.add((cname.split('#')[0], attr))
             for wrap in ('top', 'and', 'not', 'multi', 'deep'):
                 d = mk_data()
                 factory, alts2 = samples(d)[cname]
@@ -133,7 +146,7 @@ def setter_histories(R, tier):
                 m0 = safe_mask(comp, d)
                 inner = inner_of(wrap, comp)
                 try:
-                    setattr(inner, attr, alt)
+                    setattr(inner, attr, alt.f(inner) if isinstance(alt, InPlace) else alt)
                 except Exception as e:
                     R.count(None, 'setter-histories')
                     continue
@@ -141,7 +154,7 @@ def setter_histories(R, tier):
                 fresh = safe_mask(rebuild_fresh(comp), d)
                 R.count((cname, attr, wrap) if not same(m0, fresh) else None, 'setter-histories')
                 if not same(m1, fresh):
-                    R.fail("stale|setter|%s.%s|%s" % (cname, attr, 'top-level' if wrap == 'top' else 'nested'),
+                    R.fail("stale|setter|%s.%s|%s" % (cname.replace('#', ':'), attr, 'top-level' if wrap == 'top' else 'nested'),
                            "%s.%s = ... on a selection %s: the mask stays %s, a fresh copy gives %s"
                            % (cname, attr, 'evaluated before' if wrap == 'top' else 'nested (%s) in an evaluated composite' % wrap,
                               fmt(m1), fmt(fresh)),
@@ -166,7 +179,8 @@ def replay_setter(cname, attr, wrap):
     other = d.id['y'] > 0.5
     comp = build(wrap, factory(), other)
     safe_mask(comp, d)
-    setattr(inner_of(wrap, comp), attr, alts[attr])
+    inner = inner_of(wrap, comp)
+    setattr(inner, attr, alts[attr].f(inner) if isinstance(alts[attr], InPlace) else alts[attr])
     m1, fresh = safe_mask(comp, d), safe_mask(rebuild_fresh(comp), d)
     print(fmt(m1), fmt(fresh))
     return 0 if same(m1, fresh) else 1
@@ -246,7 +260,7 @@ def observe(d, state, cid_label='x'):
     return out
 
 
-MUTATIONS = ['update_components', 'update_components-2', 'update_values_same_shape', 'update_values_new_shape', 'move_to', 'noop-update', 'update_components-same-buffer']
+MUTATIONS = ['update_components', 'update_components-2', 'update_values_same_shape', 'update_values_new_shape', 'move_to', 'noop-update', 'update_components-same-buffer', 'update_values_fewer_components']
 
 
 def apply_mutation(d, state, mut, rng):
@@ -271,6 +285,11 @@ def apply_mutation(d, state, mut, rng):
         n = Data(x=[2., 2., 2., 5., 5., 5.], y=[1., 2., 3., 4., 5., 6.], label='d')
         n.add_component(np.array(['b', 'b', 'a', 'a', 'c', 'c']), 'cat')
         n.add_component(np.array(['u', 'v', 'w', 'u', 'v', 'w']), 'cat2')
+        d.update_values_from_data(n)
+    elif mut == 'update_values_fewer_components':
+        # the new data lack one attribute (removed, and announced, before the values are replaced) and have another shape
+        n = Data(x=[7., 1., 6., 2., 5.], y=[5., 4., 3., 2., 1.], label='d')
+        n.add_component(np.array(['c', 'a', 'a', 'b', 'c']), 'cat')
         d.update_values_from_data(n)
     elif mut == 'update_values_new_shape':
         n = Data(x=[5., 4., 3., 2.], y=[1., 2., 3., 4.], label='d')
@@ -319,6 +338,12 @@ def data_histories(R, tier, rng):
             d.register_to_hub(hub)
             lst = HubListener()
             hub.subscribe(lst, NumericalDataChangedMessage, handler=lambda m: listener_view())
+            # a second client looks at the selection inside every other notification of the dataset (attributes removed / added, ...):
+            # what it sees there is not compared, but it must not leave anything behind that outlives the change
+            from glue.core.message import DataRemoveComponentMessage, DataAddComponentMessage, ComponentsChangedMessage
+            lst2 = HubListener()
+            for mcls in (DataRemoveComponentMessage, DataAddComponentMessage, ComponentsChangedMessage):
+                hub.subscribe(lst2, mcls, handler=lambda m: safe_mask(state, d))
             observe(d, state)
             bad = None
             for k, mut in enumerate(seq):
